@@ -45,6 +45,9 @@ PROTO_ATTR_SEEDS = {
     "entry": OBJ, "iconmapping": K("CONFIG"), "waptop": K("CONFIG"), "accesskeyidx": K("INT"), "postfieldidx": K("INT"),
     "needsconversion": K("INT"), "handlemethod": K("CONST"), "secure": K("CONST"),
 }
+LINE_MAKING_DECODERS = {"email.header.decode_header", "email.header.make_header", "email.utils.collapse_rfc2231_value",
+                        "email.utils.decode_rfc2231", "html.unescape", "codecs.decode", "binascii.a2b_base64", "binascii.a2b_qp",
+                        "binascii.a2b_uu", "binascii.a2b_hex"}
 HANDLER_ATTR_SEEDS = {"message": K("MULTILINE"), "mbox": K("MULTILINE"), "selector": TAINTED, "searchrequest": TAINTED, "selectorreal": TAINTED, "selectorargs": TAINTED,
                       "config": OBJ, "vfs": OBJ, "protocol": OBJ, "statresult": OBJ, "entry": OBJ}
 
@@ -291,6 +294,11 @@ class MarkupDomain(Domain):
             return K("MULTILINE") if short in ("read", "readlines", "as_bytes", "as_string") else TAINTED
         if name in ("binascii.unhexlify", "binascii.hexlify"):
             return args[0] if args else K("CONST")
+        if name in LINE_MAKING_DECODERS or name.split(".")[0] in ("base64", "quopri", "uu"):
+            # decoding can turn line-free text into text with line breaks (=0D=0A, &#10;, base64 of "\n")
+            if any(a and (a & {"TAINTED", "LINE", "MULTILINE", "PREFIXED", "ESCAPED", "ESCAPED_Q", "URLQUOTED"}) for a in args):
+                return K("MULTILINE")
+            return self.container(args) if args else K("CONST")
         if name in ("os.path.basename", "os.path.dirname", "os.path.join", "os.path.normpath", "os.path.split"):
             return self.container(args) if args else TAINTED
         if name in ("builtins.getattr",):
